@@ -194,6 +194,12 @@ func genS(prop string) func(r *sim.Rng, tier string) any {
 				st.N = int64(r.Intn(2))
 			}
 			p.Steps = append(p.Steps, st)
+			if prop == "C08" && op == "lock" && r.Bool(0.2) {
+				// somebody unlocks (or re-locks with another passphrase) the underlying agent on its own socket while
+				// the shim is locked; what the shim is told afterwards must still be judged by the passphrase
+				p.Steps = append(p.Steps, SStep{Op: "uplock", N: int64(r.Intn(2))},
+					SStep{Op: "unlock", Arg: pick(r, []string{"wrong", "pw2", "", st.Arg})}, SStep{Op: "list"})
+			}
 		}
 		// end most histories with observations
 		p.Steps = append(p.Steps, SStep{Op: "list"}, SStep{Op: "signers"})
